@@ -332,13 +332,20 @@ fn rule_perform_math_ops(
             (
                 Some(AvailableValue::OriginalRegisterWithScalar(new_reg, x)),
                 Some(AvailableValue::Constant(y)),
-            )
-            | (
+            ) => node
+                .inst()
+                .scalar_op()
+                .map(|op| op.operate(x, y))
+                .map(|z| AvailableValue::OriginalRegisterWithScalar(new_reg, z)),
+            // constant + (register + scalar) is (register + scalar) + constant,
+            // but constant - (register + scalar) is not a register plus a scalar
+            (
                 Some(AvailableValue::Constant(x)),
                 Some(AvailableValue::OriginalRegisterWithScalar(new_reg, y)),
             ) => node
                 .inst()
                 .scalar_op()
+                .filter(|op| matches!(op, crate::cfg::MathOp::Add))
                 .map(|op| op.operate(x, y))
                 .map(|z| AvailableValue::OriginalRegisterWithScalar(new_reg, z)),
             (_, _) => None,
